@@ -211,32 +211,9 @@ _BTTOK = re.compile(r" (u8|u16|u32|u64)(?= )")
 def xbt_class(key):
     """input class of a cross-block-type disagreement (matched against known_findings.json like the driver's class ids)"""
     t = key.split()
-    # D6: cfloat operator-- on the all-ones encoding sets a bit above nbits when the block is wider than nbits
-    if len(t) >= 7 and t[0] == "cfloat" and t[5] == "dec":
-        try:
-            if int(t[6], 16) == (1 << int(t[1])) - 1:
-                return "xbt.cfloat.dec.allones"
-        except ValueError:
-            pass
-    # known defect of cfloat operator++ for negative encodings (isminnegencoding's generic loop never looks at the limb below
-    # the top one, only reached with five or more uint8_t limbs): low byte 1, sign set, bytes 1..MSU-2 zero
-    if len(t) >= 7 and t[0] == "cfloat" and t[5] == "inc":
-        try:
-            n, a = int(t[1]), int(t[6], 16)
-            nl = (n + 7) // 8
-            if nl >= 5 and (a >> (n - 1)) & 1 and (a & 0xff) == 1 and ((a >> 8) & ((1 << (8 * (nl - 3))) - 1)) == 0:
-                return "xbt.cfloat.inc.minneg_manyblocks"
-        except ValueError:
-            pass
-    # areal conversion of an IEEE-subnormal source is wrong in a block-type dependent way (known under C18 as well)
-    if len(t) >= 6 and t[0] == "areal" and t[4] in ("f64", "f32"):
-        try:
-            b = int(t[5], 16)
-            e = (b >> 52) & 0x7ff if t[4] == "f64" else (b >> 23) & 0xff
-            if e == 0 and b & ((1 << (52 if t[4] == "f64" else 23)) - 1):
-                return "xbt.areal.assign.subnormal_source"
-        except ValueError:
-            pass
+    # every former class (xbt.cfloat.dec.allones (D6), xbt.cfloat.inc.minneg_manyblocks, xbt.areal.assign.subnormal_source) was
+    # repaired in /repo: a cross-block-type disagreement has no class any more and is reported as a VIOLATION
+    del t
     return "-"
 
 
@@ -340,6 +317,14 @@ def main():
     audit_problems, axmap = [], {}
     if proofs_ok_for_prop:
         obligations, discharged, audit_problems, axmap = audit(prop)
+        if tier == "thorough":
+            # independent re-check of the compiled proof modules by leanchecker (replays every declaration through the kernel)
+            for m in proof_mods:
+                r = sh(["lake", "env", "leanchecker", m], cwd=LEAN)
+                if r.returncode != 0:
+                    audit_problems.append(f"leanchecker rejects {m}: {r.stdout[-300:]}")
+                else:
+                    LEANCHECKED.append(m)
     if not ok_core:
         print(out_core[-3000:])
         print(f"FATAL: model/driver do not build")
@@ -494,6 +479,9 @@ def main():
     return rc
 
 
+LEANCHECKED = []   # proof modules re-checked by leanchecker in this run (thorough tier)
+
+
 def write_evidence(prop, tier, seed, cfg, total, distinct, tags, samples, obligations, discharged, axmap, wall, nviol,
                    note="", streams=None, known=None, diffs=0):
     level = cfg.get("level", "proof")
@@ -506,7 +494,7 @@ def write_evidence(prop, tier, seed, cfg, total, distinct, tags, samples, obliga
             "Lean 4.33.0 kernel; axioms used by this property's theorems: " + (", ".join(axs) if axs else "none"),
             "hand-written Lean model of the C++ (lean/UVerif/Model) tied to /repo by the correspondence run below",
             "g++ 12.2 -O1, libstdc++, the harness TU(s): " + ", ".join(cfg["harness"]),
-        ] + cfg.get("trusted", []),
+        ] + ([f"leanchecker re-checked the compiled modules {', '.join(LEANCHECKED)}"] if LEANCHECKED else []) + cfg.get("trusted", []),
         "theorems": sorted(axmap.keys()),
         "evaluations": total,
         "distinct_nontrivial": distinct,
